@@ -313,7 +313,7 @@ func fileOptsLoad(th *starlark.Thread) {
 // runText executes one source text under one option vector and judges the outcome.
 func runText(c *driver.Ctx, site, src string, optBits int) {
 	c.Note("key=C02 crash text %s\nopts=%d\n%s", site, optBits, src)
-	res := guarded(20*time.Second, func(th *starlark.Thread) error {
+	res := guarded(8*time.Second, func(th *starlark.Thread) error {
 		fileOptsLoad(th)
 		env := sl.StdModules()
 		_, err := starlark.ExecFileOptions(sl.OptionsFromBits(optBits), th, "t.star", src, env)
